@@ -581,7 +581,7 @@ def streaming_junk_probe(trecv, nrecv, chunk, dt, payload=None):
                 recvs=sum(1 for e in client.log if e[0] == "recv"))
 
 
-def sender_probe(text_len, send_max=512, recv_bytes=2048, trecv=3, names=None):
+def sender_probe(text_len, send_max=512, recv_bytes=2048, trecv=3, names=None, kind="updated"):
     """The SENDER's side of 'every message the sender reports as sent is decoded and applied': the real _tcp_send
     writes a SYNC whose payload has about text_len characters to a socket whose send() takes at most send_max bytes
     per call (sendall() loops, as the real one does); what reached the wire is then read by a real receiver.
@@ -591,9 +591,9 @@ def sender_probe(text_len, send_max=512, recv_bytes=2048, trecv=3, names=None):
         from bobocep.dist.device import BoboDevice
         devs = [BoboDevice(addr="10.0.0.%d" % (i + 1), port=9000 + i, urn=u, id_key=k) for i, (u, k) in enumerate(names)]
     snd, _ = make_stepped(2, me=1, devices=devs)
-    rcv, _ = make_stepped(2, me=0, devices=devs, timeout_receive=trecv, recv_bytes=recv_bytes)
+    rcv, rcv_dec = make_stepped(2, me=0, devices=devs, timeout_receive=trecv, recv_bytes=recv_bytes)
     runs = [make_run_serial(i, "x" * 40) for i in range(max(1, text_len // 330))]
-    payload = payload_json(updated=runs)
+    payload = payload_json(**{kind: runs})      # kind: which of the three lists carries the runs
     clock = FakeClock(start=1000.0, tick=0.01)
     net = FakeNet([], clock)
     net.send_max = send_max
@@ -622,4 +622,12 @@ def sender_probe(text_len, send_max=512, recv_bytes=2048, trecv=3, names=None):
                 if isinstance(e, (KeyboardInterrupt, SystemExit)):
                     raise
         delivered = len(rcv.incoming_items()) == 1
+        if delivered:
+            # ... and APPLIED: the run() loop hands it to the subscribers with the same runs in the same list
+            want = [[r.run_id for r in runs] if k == kind else [] for k in ("completed", "halted", "updated")]
+            try:
+                rcv.dispatch()
+            except Exception:        # noqa
+                pass
+            delivered = [run_ids(u) for u in rcv_dec.updates] == [want]
     return dict(reported=rc, wire_bytes=len(wire), message_bytes=len(full[0]) if full else None, delivered=delivered)
